@@ -1,277 +1,47 @@
 /-
-C20 — convenience transform constructors follow their documented conventions.  Property theorems.
+C20 — convenience transform constructors follow their documented conventions.
+Collects the property theorems: `Props/C20Base.lean` (algebra of the executable rational model), `Props/C20Ext.lean`
+(object-level about-centre helpers with each centre convention, the `Scale` factory with `n_dims`, `init_identity`,
+texture coordinates for every shape, constructor table), `Props/C20Real.lean` (the statements over ℝ with `Real.cos`,
+`Real.sin`, `Real.arccos`, the coded 3-D axis/angle algorithm), `Props/C20Euler.lean` (Euler's rotation theorem: the
+3-D axis/angle clause for every proper rotation matrix), and states the combined forms.
 -/
-import MenpoModel.Core.C20
-import Mathlib.Algebra.Ring.Rat
-import Mathlib.Algebra.Order.Field.Rat
-import Mathlib.Tactic.Ring
-import Mathlib.Tactic.LinearCombination
-import Mathlib.Tactic.FieldSimp
-import Mathlib.Tactic.Linarith
+import MenpoModel.Props.C20Base
+import MenpoModel.Props.C20Ext
+import MenpoModel.Props.C20Real
+import MenpoModel.Props.C20Euler
 
+open Matrix Real
 namespace MenpoModel.C20
 
-/-! ### PROPERTY: counter-clockwise rotation constructors (2-D) -/
+/-- composing two model rotations is the real rotation by the SUM of the real angles -/
+theorem rot2_comp_is_angle_sum (c₁ s₁ c₂ s₂ : Rat) (θ₁ θ₂ : ℝ)
+    (h₁ : (c₁ : ℝ) = cos θ₁ ∧ (s₁ : ℝ) = sin θ₁) (h₂ : (c₂ : ℝ) = cos θ₂ ∧ (s₂ : ℝ) = sin θ₂) :
+    ((rot2 c₁ s₁).comp (rot2 c₂ s₂)).linR = rot2R (θ₁ + θ₂) := by
+  rw [(model_comp_is_real _ _).1, (rot2_model_is_real c₁ s₁ θ₁ h₁.1 h₁.2).1, (rot2_model_is_real c₂ s₂ θ₂ h₂.1 h₂.2).1,
+    real_rot2_add]
 
-/-- `R(θ)` sends `e₀ ↦ (cos θ, sin θ)` and `e₁ ↦ (−sin θ, cos θ)`: counter-clockwise by the signed angle -/
-theorem rot2_basis (c s : Rat) :
-    (rot2 c s).apply ⟨1, 0⟩ = ⟨c, s⟩ ∧ (rot2 c s).apply ⟨0, 1⟩ = ⟨-s, c⟩ := by
-  constructor <;> simp [rot2, Aff2.apply]
+/-- `rotate_ccw_about_centre(obj, θ)` over ℝ: for every 2-D object (point cloud, mesh: centre of mass; image: half the
+shape) the result maps `centre + v` to `centre + R(θ) v` with the real rotation matrix `R(θ)`, and fixes the centre -/
+theorem rotate_about_centre_real (o : Obj2) (c s : Rat) (θ : ℝ) (hc : (c : ℝ) = cos θ) (hs : (s : ℝ) = sin θ) :
+    ∃ m, rotateCcwAboutCentre (.d2 o) c s = .ok m ∧ m.apply o.centre = o.centre ∧
+      ∀ v : V2, (m.apply (o.centre.add v)).toR = o.centre.toR + rot2R θ *ᵥ v.toR := by
+  obtain ⟨m, hm, hfix, hoff⟩ := (rotate_about_centre_spec c s).1 o
+  refine ⟨m, hm, hfix, fun v => ?_⟩
+  have e : (⟨c * v.x - s * v.y, s * v.x + c * v.y⟩ : V2) = (rot2 c s).apply v := by
+    ext <;> simp [rot2, Aff2.apply] <;> ring
+  rw [hoff v, e]
+  have h1 := model_apply_is_real (rot2 c s) v
+  obtain ⟨hl, ht⟩ := rot2_model_is_real c s θ hc hs
+  rw [hl, ht, add_zero] at h1
+  rw [← h1]
+  ext i; fin_cases i <;> simp [V2.toR, V2.add]
 
-/-- angles add: `R(α)·R(β) = R(α+β)` in the algebraic form of the addition formulas -/
-theorem rot2_comp (c₁ s₁ c₂ s₂ : Rat) :
-    (rot2 c₁ s₁).comp (rot2 c₂ s₂) = rot2 (c₁ * c₂ - s₁ * s₂) (s₁ * c₂ + c₁ * s₂) := by
-  ext <;> simp only [rot2, Aff2.comp] <;> ring
-
-theorem rot2_det (c s : Rat) (h : c * c + s * s = 1) : (rot2 c s).det = 1 := by
-  simp only [rot2, Aff2.det]; linear_combination h
-
-/-- negative angle = inverse: `R(−θ)·R(θ) = 1` -/
-theorem rot2_neg_inverse (c s : Rat) (h : c * c + s * s = 1) :
-    (rot2 c (-s)).comp (rot2 c s) = ⟨1, 0, 0, 0, 1, 0⟩ := by
-  ext <;> simp only [rot2, Aff2.comp] <;> (first | ring1 | linear_combination h | linear_combination (-1 : Rat) * h)
-
-/-! ### PROPERTY: 3-D constructors rotate about the stated axis in the right-handed sense -/
-
-theorem rot3x_spec (c s : Rat) :
-    (rot3x c s).apply ⟨1, 0, 0⟩ = ⟨1, 0, 0⟩ ∧ (rot3x c s).apply ⟨0, 1, 0⟩ = ⟨0, c, s⟩ ∧
-    (rot3x c s).apply ⟨0, 0, 1⟩ = ⟨0, -s, c⟩ := by
-  refine ⟨?_, ?_, ?_⟩ <;> simp [rot3x, Lin3.apply, V3.dot]
-theorem rot3y_spec (c s : Rat) :
-    (rot3y c s).apply ⟨0, 1, 0⟩ = ⟨0, 1, 0⟩ ∧ (rot3y c s).apply ⟨0, 0, 1⟩ = ⟨s, 0, c⟩ ∧
-    (rot3y c s).apply ⟨1, 0, 0⟩ = ⟨c, 0, -s⟩ := by
-  refine ⟨?_, ?_, ?_⟩ <;> simp [rot3y, Lin3.apply, V3.dot]
-theorem rot3z_spec (c s : Rat) :
-    (rot3z c s).apply ⟨0, 0, 1⟩ = ⟨0, 0, 1⟩ ∧ (rot3z c s).apply ⟨1, 0, 0⟩ = ⟨c, s, 0⟩ ∧
-    (rot3z c s).apply ⟨0, 1, 0⟩ = ⟨-s, c, 0⟩ := by
-  refine ⟨?_, ?_, ?_⟩ <;> simp [rot3z, Lin3.apply, V3.dot]
-
-/-- each constructor is the Rodrigues rotation about its coordinate axis -/
-theorem rot3x_rodrigues (c s : Rat) (v : V3) : (rot3x c s).apply v = rodrigues ⟨1, 0, 0⟩ c s v := by
-  ext <;> simp only [rot3x, Lin3.apply, V3.dot, rodrigues, V3.add, V3.smul, V3.cross] <;> ring
-theorem rot3y_rodrigues (c s : Rat) (v : V3) : (rot3y c s).apply v = rodrigues ⟨0, 1, 0⟩ c s v := by
-  ext <;> simp only [rot3y, Lin3.apply, V3.dot, rodrigues, V3.add, V3.smul, V3.cross] <;> ring
-theorem rot3z_rodrigues (c s : Rat) (v : V3) : (rot3z c s).apply v = rodrigues ⟨0, 0, 1⟩ c s v := by
-  ext <;> simp only [rot3z, Lin3.apply, V3.dot, rodrigues, V3.add, V3.smul, V3.cross] <;> ring
-
-theorem rot3_orthogonal (c s : Rat) (h : c * c + s * s = 1) :
-    (rot3x c s).mul (rot3x c s).transpose = Lin3.one ∧
-    (rot3y c s).mul (rot3y c s).transpose = Lin3.one ∧
-    (rot3z c s).mul (rot3z c s).transpose = Lin3.one ∧
-    (rot3x c s).det = 1 ∧ (rot3y c s).det = 1 ∧ (rot3z c s).det = 1 := by
-  refine ⟨?_, ?_, ?_, ?_, ?_, ?_⟩
-  · ext <;> simp only [rot3x, Lin3.mul, Lin3.transpose, Lin3.col0, Lin3.col1, Lin3.col2, V3.dot, Lin3.one] <;> (first | ring1 | linear_combination h | linear_combination (-1 : Rat) * h)
-  · ext <;> simp only [rot3y, Lin3.mul, Lin3.transpose, Lin3.col0, Lin3.col1, Lin3.col2, V3.dot, Lin3.one] <;> (first | ring1 | linear_combination h | linear_combination (-1 : Rat) * h)
-  · ext <;> simp only [rot3z, Lin3.mul, Lin3.transpose, Lin3.col0, Lin3.col1, Lin3.col2, V3.dot, Lin3.one] <;> (first | ring1 | linear_combination h | linear_combination (-1 : Rat) * h)
-  · simp only [rot3x, Lin3.det, V3.dot, V3.cross]; (first | ring1 | linear_combination h | linear_combination (-1 : Rat) * h)
-  · simp only [rot3y, Lin3.det, V3.dot, V3.cross]; (first | ring1 | linear_combination h | linear_combination (-1 : Rat) * h)
-  · simp only [rot3z, Lin3.det, V3.dot, V3.cross]; (first | ring1 | linear_combination h | linear_combination (-1 : Rat) * h)
-
-/-! ### PROPERTY: the reported axis and angle reconstruct the rotation, sign included -/
-
-/-- 3-D: for the rotation about the unit axis `a` by the angle `(c, s)` and *any* unit vector
-`p ⊥ a` (the code draws a random one), the recovered cosine is `c` and the recovered signed sine is
-`s`; and the axis is fixed by the rotation.  So `(axis, angle)` reconstructs the rotation. -/
-theorem axis_angle_reconstructs_3d (a p : V3) (c s : Rat)
+/-- the executable 3-D recovery `axisAngle3` returns, at rational data, the real numbers `cos θ`, `sin θ` -/
+theorem axis_angle3_model_is_real (a p : V3) (c s : Rat) (θ : ℝ) (hc : (c : ℝ) = cos θ) (hs : (s : ℝ) = sin θ)
     (ha : a.dot a = 1) (hp : p.dot p = 1) (hap : a.dot p = 0) :
-    axisAngle3 (rodrigues a c s) a p = (c, s) ∧ rodrigues a c s a = a := by
-  obtain ⟨ax, ay, az⟩ := a
-  obtain ⟨px, py, pz⟩ := p
-  simp only [V3.dot] at ha hp hap
-  refine ⟨?_, ?_⟩
-  · simp only [axisAngle3, rodrigues, V3.dot, V3.cross, V3.add, V3.smul, Prod.mk.injEq]
-    constructor
-    · linear_combination c * hp + (1 - c) * (ax * px + ay * py + az * pz) * hap
-    · linear_combination s * (px * px + py * py + pz * pz) * ha + s * hp - s * (ax * px + ay * py + az * pz) * hap
-  · ext <;> simp only [rodrigues, V3.dot, V3.cross, V3.add, V3.smul]
-    · linear_combination (1 - c) * ax * ha
-    · linear_combination (1 - c) * ay * ha
-    · linear_combination (1 - c) * az * ha
-
-/-- reversing the axis reverses the angle: the eigenvector's arbitrary sign is harmless -/
-theorem rodrigues_neg_axis (a v : V3) (c s : Rat) : rodrigues a.neg c (-s) v = rodrigues a c s v := by
-  ext <;> simp only [rodrigues, V3.neg, V3.dot, V3.cross, V3.add, V3.smul] <;> ring
-
-/-- 2-D as the property requires it: the signed `(cos, sin)` reconstructs the rotation -/
-theorem axis_angle_2d_spec (c s : Rat) :
-    rot2 (axisAngle2Spec (rot2 c s)).1 (axisAngle2Spec (rot2 c s)).2 = rot2 c s := by
-  simp [axisAngle2Spec, rot2]
-
-/-- 2-D as coded (`arccos` of the first component only): correct exactly for non-negative angles … -/
-theorem axis_angle_2d_coded_iff (c s : Rat) :
-    rot2 (axisAngle2Coded (rot2 c s)).1 (axisAngle2Coded (rot2 c s)).2 = rot2 c s ↔ 0 ≤ s := by
-  have e : axisAngle2Coded (rot2 c s) = (c, if s < 0 then -s else s) := rfl
-  rw [e]
-  by_cases hs : s < 0
-  · simp only [hs, if_true, rot2, Aff2.mk.injEq, true_and, and_true]
-    constructor
-    · intro h; linarith [h.2]
-    · intro h; linarith
-  · have h0 : 0 ≤ s := not_lt.mp hs
-    simp [hs, h0]
-
-/-- … and refuted for a clockwise quarter turn: the sign is lost (KNOWN FINDING, pinned by
-`test_basic_2d_rotation_axis_angle`) -/
-theorem axis_angle_2d_coded_refuted :
-    rot2 (axisAngle2Coded (rot2 0 (-1))).1 (axisAngle2Coded (rot2 0 (-1))).2 = rot2 0 1 ∧
-    rot2 0 1 ≠ rot2 0 (-1) := by
-  constructor
-  · decide
-  · decide
-
-/-! ### PROPERTY: transforms about a centre -/
-
-theorem about_centre2_offsets (ctr v : V2) (t : Aff2) :
-    (aboutCentre2 ctr t).apply (ctr.add v) = ctr.add (t.apply v) := by
-  ext <;> simp only [aboutCentre2, transl2, Aff2.comp, Aff2.apply, V2.add, V2.neg] <;> ring
-
-/-- a linear transform about the centre keeps the centre fixed -/
-theorem about_centre2_fixes (ctr : V2) (t : Aff2) (h0 : t.tx = 0 ∧ t.ty = 0) :
-    (aboutCentre2 ctr t).apply ctr = ctr := by
-  ext <;> simp only [aboutCentre2, transl2, Aff2.comp, Aff2.apply, V2.neg, h0.1, h0.2] <;> ring
-
-theorem about_centre3_offsets (ctr v : V3) (m : Aff3) :
-    (aboutCentre3 ctr m).apply (ctr.add v) = ctr.add (m.apply v) := by
-  ext <;> simp only [aboutCentre3, Aff3.apply, Lin3.apply, V3.dot, V3.add, V3.neg] <;> ring
-
-theorem about_centre3_fixes (ctr : V3) (m : Aff3) (h0 : m.t = ⟨0, 0, 0⟩) :
-    (aboutCentre3 ctr m).apply ctr = ctr := by
-  ext <;> simp only [aboutCentre3, Aff3.apply, Lin3.apply, V3.dot, V3.add, V3.neg, h0] <;> ring
-
-/-- the three factory functions are linear transforms about the centre -/
-theorem factories_are_linear (c s k tp ts : Rat) :
-    ((rot2 c s).tx = 0 ∧ (rot2 c s).ty = 0) ∧ ((uscale2 k).tx = 0 ∧ (uscale2 k).ty = 0) ∧
-    ((shear2 tp ts).tx = 0 ∧ (shear2 tp ts).ty = 0) := by
-  simp [rot2, uscale2, shear2]
-
-/-! ### PROPERTY: the `Scale` factory -/
-
-theorem scale_factory_spec (ks : List Rat) :
-    (scaleFactory ks = none ↔ (ks = [] ∨ ∃ k ∈ ks, k = 0)) ∧
-    (∀ k n, scaleFactory ks = some (.uniform k n) ↔
-        (ks ≠ [] ∧ (∀ x ∈ ks, x ≠ 0) ∧ (∀ x ∈ ks, x = k) ∧ n = ks.length)) ∧
-    (∀ l, scaleFactory ks = some (.nonUniform l) ↔
-        (l = ks ∧ (∀ x ∈ ks, x ≠ 0) ∧ ∃ x ∈ ks, ∃ y ∈ ks, x ≠ y)) := by
-  unfold scaleFactory
-  by_cases hz : ks.any (· == 0) = true
-  · have hz' : ∃ k ∈ ks, k = 0 := by simpa using hz
-    obtain ⟨k0, hk0, rfl⟩ := hz'
-    simp only [hz, if_true, true_iff, reduceCtorEq, false_iff]
-    refine ⟨Or.inr ⟨0, hk0, rfl⟩, ?_, ?_⟩
-    · intro k n h; exact h.2.1 0 hk0 rfl
-    · intro l h; exact h.2.1 0 hk0 rfl
-  · have hnz : ∀ x ∈ ks, x ≠ 0 := by
-      intro x hx h0; apply hz; simp only [List.any_eq_true, beq_iff_eq]; exact ⟨x, hx, h0⟩
-    simp only [hz]
-    cases ks with
-    | nil => simp
-    | cons k0 t =>
-      by_cases hall : (k0 :: t).all (· == k0) = true
-      · have hall' : ∀ x ∈ k0 :: t, x = k0 := by simpa using hall
-        simp only [Bool.false_eq_true, if_false, hall, if_true, reduceCtorEq, false_iff, Option.some.injEq,
-          ScaleKind.uniform.injEq]
-        refine ⟨?_, ?_, ?_⟩
-        · intro h; rcases h with h | ⟨k, hk, rfl⟩
-          · simp at h
-          · exact hnz 0 hk rfl
-        · intro k n
-          constructor
-          · rintro ⟨rfl, rfl⟩; exact ⟨by simp, hnz, hall', rfl⟩
-          · rintro ⟨_, _, h3, h4⟩
-            exact ⟨(h3 k0 (by simp)), h4.symm⟩
-        · intro l h
-          obtain ⟨_, _, x, hx, y, hy, hxy⟩ := h
-          exact hxy ((hall' x hx).trans (hall' y hy).symm)
-      · have hne : ∃ x ∈ k0 :: t, x ≠ k0 := by
-          simp only [Bool.not_eq_true] at hall
-          have := List.all_eq_false.mp hall
-          obtain ⟨x, hx, hxk⟩ := this
-          exact ⟨x, hx, by simpa using hxk⟩
-        simp only [Bool.false_eq_true, if_false, hall, reduceCtorEq, false_iff, Option.some.injEq,
-          ScaleKind.nonUniform.injEq]
-        refine ⟨?_, ?_, ?_⟩
-        · intro h; rcases h with h | ⟨k, hk, rfl⟩
-          · simp at h
-          · exact hnz 0 hk rfl
-        · intro k n h
-          obtain ⟨x, hx, hxk⟩ := hne
-          have h3 := h.2.2.1
-          exact hxk ((h3 x hx).trans (h3 k0 (by simp)).symm)
-        · intro l
-          constructor
-          · rintro rfl
-            obtain ⟨x, hx, hxk⟩ := hne
-            exact ⟨rfl, hnz, x, hx, k0, by simp, hxk⟩
-          · rintro ⟨rfl, _⟩; rfl
-
-/-! ### PROPERTY: texture ↔ image coordinates -/
-
-theorem tcoords_formula (h w : Rat) (p : V2) :
-    (tcoordsToImage h w).apply p = ⟨(1 - p.y) * (h - 1), p.x * (w - 1)⟩ := by
-  ext <;> simp only [tcoordsToImage, scale2, flipXY, invertUnitY, Aff2.comp, Aff2.apply] <;> ring
-
-/-- unit-square corners ↦ corner pixels, vertical axis flipped -/
-theorem tcoords_corners (h w : Rat) :
-    (tcoordsToImage h w).apply ⟨0, 0⟩ = ⟨h - 1, 0⟩ ∧ (tcoordsToImage h w).apply ⟨0, 1⟩ = ⟨0, 0⟩ ∧
-    (tcoordsToImage h w).apply ⟨1, 1⟩ = ⟨0, w - 1⟩ ∧ (tcoordsToImage h w).apply ⟨1, 0⟩ = ⟨h - 1, w - 1⟩ := by
-  refine ⟨?_, ?_, ?_, ?_⟩ <;> rw [tcoords_formula] <;> simp
-
-/-- mutual inverses for every image with at least two rows and two columns
-(for a side of length 1 the scale is zero and `Scale` rightly refuses) -/
-theorem tcoords_mutual_inverse (h w : Rat) (hh : h ≠ 1) (hw : w ≠ 1) (p : V2) :
-    (imageToTcoords h w).apply ((tcoordsToImage h w).apply p) = p ∧
-    (tcoordsToImage h w).apply ((imageToTcoords h w).apply p) = p := by
-  have h1 : h - 1 ≠ 0 := sub_ne_zero.mpr hh
-  have h2 : w - 1 ≠ 0 := sub_ne_zero.mpr hw
-  constructor <;> ext <;>
-    simp only [imageToTcoords, Aff2.inv, Aff2.det, tcoordsToImage, scale2, flipXY, invertUnitY, Aff2.comp,
-      Aff2.apply] <;> field_simp <;> ring
-
-/-! ### PROPERTY: quaternion parameters round-trip -/
-
-/-- the matrix built from any non-zero quaternion is a proper rotation -/
-theorem quat_matrix_orthogonal (w x y z : Rat) (hn : w * w + x * x + y * y + z * z ≠ 0) :
-    (quatToLin w x y z).mul (quatToLin w x y z).transpose = Lin3.one ∧ (quatToLin w x y z).det = 1 := by
-  obtain ⟨n, hdef⟩ : ∃ n, n = w * w + x * x + y * y + z * z := ⟨_, rfl⟩
-  have hn' : n ≠ 0 := by rw [hdef]; exact hn
-  constructor
-  · ext <;> simp only [quatToLin, Lin3.mul, Lin3.transpose, Lin3.col0, Lin3.col1, Lin3.col2, V3.dot, Lin3.one] <;>
-      rw [← hdef] <;> field_simp <;> subst hdef <;> ring
-  · simp only [quatToLin, Lin3.det, V3.dot, V3.cross]
-    rw [← hdef]; field_simp; subst hdef; ring
-
-/-- `as_vector` recovers the quaternion: `(x, y, z, w)` is an eigenvector of `K(R(q))` with
-eigenvalue 1 (the largest: the others are −1/3), so under the `eigh` contract the canonical unit
-quaternion (`w > 0`) is returned -/
-theorem quat_K_eigen (w x y z : Rat) (hn : w * w + x * x + y * y + z * z = 1) :
-    quatK (quatToLin w x y z) x y z w = (x, y, z, w) := by
-  simp only [quatK, quatToLin, hn, Prod.mk.injEq]
-  refine ⟨?_, ?_, ?_, ?_⟩ <;> field_simp
-  · linear_combination (4 * x) * hn
-  · linear_combination (4 * y) * hn
-  · linear_combination (4 * z) * hn
-  · ring
-
-/-- `from_vector` then `as_vector` is scale-invariant in the quaternion, as the code normalises -/
-theorem quat_scale_invariant (w x y z k : Rat) (hk : k ≠ 0) (hn : w * w + x * x + y * y + z * z ≠ 0) :
-    quatToLin (k * w) (k * x) (k * y) (k * z) = quatToLin w x y z := by
-  obtain ⟨n, hdef⟩ : ∃ n, n = w * w + x * x + y * y + z * z := ⟨_, rfl⟩
-  have hn' : n ≠ 0 := by rw [hdef]; exact hn
-  have e : (k * w) * (k * w) + (k * x) * (k * x) + (k * y) * (k * y) + (k * z) * (k * z) = k * k * n := by
-    rw [hdef]; ring
-  ext <;> simp only [quatToLin] <;> rw [e, ← hdef] <;> field_simp
-
-/-! ### non-vacuity -/
-example : (rot2 (3/5) (4/5)).apply ⟨1, 0⟩ = ⟨3/5, 4/5⟩ := by decide +kernel
-example : ((3:Rat)/5) * (3/5) + (4/5) * (4/5) = 1 := by decide +kernel
-example : (aboutCentre2 ⟨2, 3⟩ (rot2 0 1)).apply ⟨2, 3⟩ = ⟨2, 3⟩ := by decide +kernel
-example : scaleFactory [2, 2, 2] = some (.uniform 2 3) := by decide +kernel
-example : scaleFactory [2, 3] = some (.nonUniform [2, 3]) := by decide +kernel
-example : scaleFactory [2, 0] = none := by decide +kernel
-example : (tcoordsToImage 5 7).apply ⟨1, 0⟩ = ⟨4, 6⟩ := by decide +kernel
-example : let a : V3 := ⟨3/5, 4/5, 0⟩; let p : V3 := ⟨0, 0, 1⟩
-    a.dot a = 1 ∧ p.dot p = 1 ∧ a.dot p = 0 := by decide +kernel
-example : quatToLin 1 0 0 0 = Lin3.one := by decide +kernel
-example : (1:Rat)/2 * (1/2) + (1/2) * (1/2) + (1/2) * (1/2) + (1/2) * (1/2) = 1 := by decide +kernel
+    (((axisAngle3 (rodrigues a c s) a p).1 : Rat) : ℝ) = cos θ ∧ (((axisAngle3 (rodrigues a c s) a p).2 : Rat) : ℝ) = sin θ := by
+  rw [(axis_angle_reconstructs_3d a p c s ha hp hap).1]
+  exact ⟨hc, hs⟩
 
 end MenpoModel.C20
